@@ -59,6 +59,70 @@ func ChannelMB(t Tier, r *Rng, emit Emit) {
 			}
 		}
 	}
+	// bitmapped composites nested in bitmapped composites that use ONE bitmap definition (the
+	// harness shares identical definitions, as a spec author does with `bm := field.NewBitmap(…)`):
+	// the inner Pack runs while the outer bit loop is under way
+	for i := 0; i < t.N(150, 4000); i++ {
+		bl := Pick(r, []int{1, 2, 3})
+		B := bl * 8
+		ep := Pick(r, [][2]string{{"binary", "binary.F"}, {"bytesToHex", "hex.F"}})
+		mode := func() *T { return N("b", A(strconv.Itoa(bl)), A(ep[0]), A(ep[1])) }
+		leaf := func() *T { return N("p", A("s"), A("9"), A("ascii"), A("ascii.2"), A("nil"), A("d")) }
+		pickIDs := func(n int) []int {
+			seen := map[int]bool{}
+			var ks []int
+			for len(ks) < n {
+				id := 1 + r.Intn(B)
+				if !seen[id] {
+					seen[id] = true
+					ks = append(ks, id)
+				}
+			}
+			sort.Ints(ks)
+			return ks
+		}
+		innerIDs := pickIDs(2 + r.Intn(3))
+		inner := []*T{A("99"), A("ascii.2"), mode()}
+		for _, id := range innerIDs {
+			inner = append(inner, N("sub", A(strconv.Itoa(id)), leaf()))
+		}
+		outerIDs := pickIDs(3 + r.Intn(3))
+		nestAt := outerIDs[r.Intn(len(outerIDs))]
+		outer := []*T{A("999"), A("ascii.3"), mode()}
+		for _, id := range outerIDs {
+			f := leaf()
+			if id == nestAt {
+				f = N("c", inner...)
+			}
+			outer = append(outer, N("sub", A(strconv.Itoa(id)), f))
+		}
+		ss := N("c", outer...).String()
+		val := func(ids []int, nested *T) *T {
+			v := N("c")
+			for _, id := range ids {
+				if id == nestAt && nested != nil {
+					if len(nested.Kids) > 0 || r.Intn(3) == 0 {
+						v.Kids = append(v.Kids, N("kv", A(strconv.Itoa(id)), nested))
+					}
+					continue
+				}
+				if r.Intn(3) != 0 {
+					v.Kids = append(v.Kids, N("kv", A(strconv.Itoa(id)), N("s", A(H(r.From([]byte("ABCxyz019"), r.Intn(5)))))))
+				}
+			}
+			if len(v.Kids) == 0 {
+				v.Name = "c()"
+			}
+			return v
+		}
+		for k := 0; k < 3; k++ {
+			line := fmt.Sprintf("F %s pack %s", ss, val(outerIDs, val(innerIDs, nil)).String())
+			emit(line)
+			if wire, ok := packReal(line); ok {
+				emit(fmt.Sprintf("F %s unpack %s", ss, H(wire)))
+			}
+		}
+	}
 	encs := [][2]string{{"binary", "binary.F"}, {"bytesToHex", "hex.F"}, {"binary", "ascii.F"}}
 	for i := 0; i < t.N(500, 20000); i++ {
 		bl := Pick(r, []int{1, 2, 3, 4, 5, 7, 8, 8, 0, 16})
